@@ -20,7 +20,7 @@ PROPERTY = 'C19'
 RULE = ('3-node designs: all 5^3 assignments of the edge profiles {large +, large -, small +, no effect, constant} (6^3 with '
         '"constant difference" for the paired design), group sizes (2,2),(2,3),(3,2) unpaired and (3,3) paired, threshold in '
         '{0.5, 3} and a threshold exactly equal to an attained statistic (profile with t = 2.0), tail in {both,left,right}; k=1 with the full relabelling menu (24 / 120 orders, 8 sign patterns), k=2 for '
-        '(2,2) on a subset, 6-7 node designs with three observed components, 9-node two-component designs (thorough: 4-node designs on a fixed profile set); subject stacks also as uint16 / int16 / uint8 / int64 arrays on integer-valued profiles; non-trivial = configuration with at least one '
+        '(2,2) on a subset, 6-7 node designs with three observed components, 9-node two-component designs (thorough: 4-node designs on a fixed profile set); data also multiplied by 2^-60 and 2^60; subject stacks also as uint16 / int16 / uint8 / int64 arrays on integer-valued profiles; non-trivial = configuration with at least one '
         'observed component (not rejected as "unsuitable threshold") and >= 2 distinct null values over the relabellings')
 ASSUMPTIONS = ['t statistics re-derived from their definitions in this file (zero pooled variance => 0 as the library '
                'documents by construction; paired zero variance follows IEEE: +-inf exceeds, nan does not)',
@@ -88,6 +88,14 @@ def catalogue(thorough):
                              'k': 1, 'dtype': dt})
                 cfgs.append({'n': 3, 'profile': prof, 'nx': 3, 'ny': 3, 'thresh': 0.5, 'tail': tail, 'paired': True,
                              'k': 1, 'dtype': dt})
+    # the unit the weights are expressed in (data multiplied by 2^-60 / 2^60): the statistic is scale-free
+    for prof in ('PPP', 'PNZ', 'PSC', 'NNS', 'SSZ', 'PZC'):
+        for sc in (-60, 60):
+            for tail in TAILS:
+                cfgs.append({'n': 3, 'profile': prof, 'nx': 2, 'ny': 3, 'thresh': 0.5, 'tail': tail, 'paired': False,
+                             'k': 1, 'scale': sc})
+                cfgs.append({'n': 3, 'profile': prof, 'nx': 3, 'ny': 3, 'thresh': 0.5, 'tail': tail, 'paired': True,
+                             'k': 1, 'scale': sc})
     four = ['PPZZNN', 'PPPZZZ', 'PZPZSZ', 'PNCZSP', 'SSSSSS', 'PZZZZP', 'NNZZCC', 'PPNNZZ']
     if thorough:
         four += [''.join(p) for p in itertools.product('PNZ', repeat=6)][::5]
@@ -185,6 +193,8 @@ def supra_components(n, X, Y, thresh, tail, paired):
 
 def mats(cfg):
     x, y = build(cfg['n'], cfg['profile'], cfg['nx'], cfg['ny'])
+    if cfg.get('scale'):
+        x, y = x * 2.0 ** cfg['scale'], y * 2.0 ** cfg['scale']      # a power of two: exact, the t statistics do not change
     pairs = ss.und_pairs(cfg['n'])
     X = np.array([[x[a, b, s] for s in range(cfg['nx'])] for (a, b) in pairs])
     Y = np.array([[y[a, b, s] for s in range(cfg['ny'])] for (a, b) in pairs])
